@@ -8,7 +8,7 @@ is harness/common/kwire.py, which reads the fields of real `Type`/`Term`/`Thm` o
   Term := (sv name Ty) | (v name Ty) | (c name Ty) | (ap Term Term) | (ab name Ty Term) | (b i)
   Thm  := (thm (Term*) Term)
   Inst := (inst ((name Ty)*) ((name Term)*) ((name Term)*))
-  Arg  := (none) | (term Term) | (tyinst ((name Ty)*)) | Inst
+  Arg  := (none) | (term Term) | (tyinst ((name Ty)*)) | Inst | (other KIND*)   -- anything no rule accepts
 -/
 namespace Holpy.Wire
 open Holpy
@@ -48,6 +48,7 @@ def argOf : Sexp → Option Arg
   | .list [.atom "tyinst", .list l] => do some (.tyinst (← tyInstOf l))
   | .list [.atom "inst", .list ty, .list sv, .list vs] => do
     some (.inst ⟨← tyInstOf ty, ← termMapOf sv, ← termMapOf vs⟩)
+  | .list (.atom "other" :: _) => some .other
   | _ => none
 
 partial def tyTo : Ty → Sexp
